@@ -14,13 +14,13 @@ CLAIMED = {
  "C09": ("Same exploration as C01 over arbitrary bytes: every outcome of ReceiveProbe is proved to be a hop, a retryable error, or the one allowed SACK abort; no Go panic is reachable inside the bounds. A rejected packet delivered before a genuine reply does not change that reply's recognition. Frame level: arbitrary Ethernet frames of every captured length through the real afPacketSource.Read / stripEthernetHeader / ReadAndParse behind the real cBPF program of each filter end in a parsed packet or a retryable error.", "5 C09"),
 }
 CLAIMED.update({
- "C03": ("Parts (a) and (b): the real TracerouteParallel/TracerouteSerial over a model driver for every schedule and bounded reply sequence produce a list of the stated shape; and the real clipResults and ToHops over an arbitrary slot table satisfying the engines' representation invariant, every occupancy/destination pattern for MaxTTL <= 5/8 and windows at 4, 128, 255: list shape (consecutive TTLs, ends at the lowest destination TTL, never empty, only the last entry is the destination) is proved. ", "5 C03"),
- "C05": ("The real drivers on a virtual clock: for every accepted hop in the C01 exploration the reported RTT is proved equal to (clock at the accepting ReceiveProbe) - (clock when that same TTL's probe was handed to the sink), hence non-negative, for arbitrary gaps between sends and an arbitrary flight time, and the hop is credited to the probe the reply answers (attribution obligation evaluated here too); the e2e probe returns the destination hop's RTT or 0; the ms conversion is zero at zero and positive on positive durations < 2^36 ns.", "5 C05"),
+ "C03": ("Parts (a) and (b): the real TracerouteParallel/TracerouteSerial over a model driver for every schedule and bounded reply sequence produce a list of the stated shape that ends at the lowest TTL for which a destination reply was accepted; and the real clipResults and ToHops over an arbitrary slot table satisfying the engines' representation invariant, every occupancy/destination pattern for MaxTTL <= 5/8 and windows at 4, 128, 255: list shape (consecutive TTLs, ends at the lowest destination TTL, never empty, only the last entry is the destination) is proved. ", "5 C03"),
+ "C05": ("The real drivers on a virtual clock: for every accepted hop in the C01 exploration the reported RTT is proved equal to (clock at the accepting ReceiveProbe) - (clock when that same TTL's probe was handed to the sink), hence non-negative, for arbitrary gaps between sends, writes that themselves take time, and an arbitrary flight time, and the hop is credited to the probe the reply answers (attribution obligation evaluated here too); the e2e probe returns the destination hop's RTT or 0; the ms conversion is zero at zero and positive on positive durations < 2^36 ns.", "5 C05"),
  "C06": ("Parts (a),(b): for every variant the bytes the real SendProbe hands to the sink are proved well formed (version, lengths, TTL/hop limit = probed TTL, protocol, run-constant endpoints, IPv4 header and L4 checksums, flags, identifier formula) and written to the target; the identifiers of two probes of a run differ - for every TTL position and every identifier base. Part (c): the real engines over a model driver send at most one probe per TTL in increasing order, spaced by SendDelay on the virtual clock, and at most one after a destination reply was accepted. Part (d): the endpoints each protocol entry point reports equal those carried by every probe it emitted.", "5 C06"),
- "C11": ("Part (a): from any 32-bit allocator state three consecutive AllocPacketID ranges of arbitrary sizes are proved pairwise disjoint modulo 2^16 and consecutive echo identifiers distinct. Part (b): for each protocol two runs to the same target with the identities the code relies on (echo ids, local ports, sequence windows): every catalogue reply to a probe of one run is proved to be rejected by the other run's real matcher.", "5 C11"),
+ "C11": ("Part (a): from any 32-bit allocator state three consecutive AllocPacketID ranges of arbitrary sizes are proved pairwise disjoint modulo 2^16 and consecutive echo identifiers distinct. Part (b): for each protocol two runs to the same target with the identities the code relies on (echo ids, local ports, sequence windows): every catalogue reply to a probe of one run is proved to be rejected by the other run's real matcher, with a retryable error (another run's packet never aborts this run).", "5 C11"),
  "C16": ("The real Results.Normalize on symbolic documents: reachable iff address, hop-count statistics ordered and within run lengths, e2e statistics (sent/received/loss exact; min <= avg <= max; 0 <= jitter <= max-min) decided in IEEE-754 semantics by cvc5 for n=2 (quick) / 3 (thorough) samples; identifier path uuid->base64 injective (per 3-byte group). JSON round trip is outside (reflection).", "5 C16"),
  "C17": ("The real Results.RemovePrivateHops (and net.IP.IsPrivate/To4) on symbolic documents against an independent RFC 1918 / RFC 4193 predicate over 4-byte, 16-byte and IPv4-mapped addresses: private hops keep only TTL and position, other hops are the same objects untouched, counts unchanged; the HTTP flag parses as a boolean; the real RunTraceroute over model runs and a model resolver redacts after enrichment and normalisation (no name, RTT or flag of a private hop survives).", "5 C17"),
- "C19": ("The real runTracerouteOnce with MinTTL/MaxTTL as unconstrained 64-bit symbols for every protocol/method/target/port combination listed: either an error, or the runner (observed at its entry through a seam) received exactly the requested TTL bounds, address, port and kind, with 1 <= min <= max <= 255; HTTP query values pass through unchanged; no panic in driver construction and first/last probe at the extremes (MaxTTL 1 and 255).", "5 C19"),
+ "C19": ("The real runTracerouteOnce with MinTTL/MaxTTL as unconstrained 64-bit symbols for every protocol/method/target/port combination listed: either an error, or the runner (observed at its entry through a seam) received exactly the requested TTL bounds, address, port and kind, with 1 <= min <= max <= 255; HTTP query values pass through unchanged; no panic in driver construction and first/last probe at the extremes (MaxTTL 1 and 255); the whole request path through the real RunTraceroute at the port boundaries (-65536, -1, 0, 1, 443, 65535, 65536, 70000); the real engines at MaxTTL 255 emit exactly the requested TTLs.", "5 C19"),
  "C20": ("Parts (a),(d): the real performTCPFallback over recording closures and symbolic error chains (depth <= 3, %w / Join / custom Unwrap / %v): sack never falls back, prefer_sack falls back exactly when a NotSupportedError is reachable in the chain and otherwise reports the SACK error wrapped, syn never runs SACK; e2e probes use SYN on a single TTL. Where NotSupportedError originates: the real sack matcher turns an ACK on the probed connection without SACK blocks into NotSupportedError and nothing else; the real ReadHandshake classifies a SYN-ACK without SACK-permitted as NotSupportedError (reachable through errors.As from the returned error) and silence/noise as a plain error; the entry points classify dial failure likewise (C10 jobs).", "5 C20"),
 })
 CLAIMED.update({
